@@ -262,6 +262,14 @@ impl Link {
         );
     }
 
+    /// True if a program line starts at the very end of the code (it compiled to nothing).
+    pub fn has_line_at_end(&self) -> bool {
+        let end = self.ops.len();
+        self.symbols
+            .range(0..=LineNumber::max_value() as Symbol)
+            .any(|(_, (op_addr, _))| *op_addr == end)
+    }
+
     pub fn line_number_for(&self, op_addr: Address) -> LineNumber {
         for (line_number, (symbol_addr, _)) in self.symbols.range(0..).rev() {
             if op_addr >= *symbol_addr {
